@@ -3,7 +3,7 @@
 import json, os, sys
 ROOT = os.path.dirname(os.path.dirname(os.path.abspath(__file__)))
 sys.path.insert(0, os.path.join(ROOT, "tools"))
-from properties_cfg import PROPS, COMMON_TRUSTED, NOT_APPLICABLE, HOOK_COMMITS
+from properties_cfg import PROPS, COMMON_TRUSTED, NOT_APPLICABLE, HOOK_COMMITS, tie_note
 
 ALL = ["C%02d" % i for i in range(1, 20)]
 checks = []
@@ -23,8 +23,8 @@ for pid in ALL:
             "text": c["level_text"],
             "design_ref": "DESIGN.md section 5, %s" % pid,
         },
-        "level_note": c["level_note"],
-        "technique": c.get("technique", "Lean 4 theorems about a hand-written executable model, tied to the code by a differential correspondence check (real crate vs model vs spec oracle)"),
+        "level_note": c["level_note"] + tie_note(c["modules"]),
+        "technique": c.get("technique", "Lean 4 theorems about an executable model; the model is tied to the code (a) by a translator that regenerates Lean definitions from the Rust text on every run, proved equal to the model by kernel-checked tie theorems, and (b) by a differential correspondence check (real crate vs model vs spec oracle)"),
     })
 na = [{"property_id": p, "reason": r} for p, r in NOT_APPLICABLE.items() if p not in PROPS]
 for pid in ALL:
@@ -48,7 +48,7 @@ manifest = {
     }],
     "checks": checks,
     "not_applicable": na,
-    "notes": "Every check: regenerate constants and the translated definitions (Ite::new, finite-field / complex / expected-utility / real semiring operations) from the source, lake build + axiom audit of every theorem of the property's modules, cargo build of the harness against /repo's working tree, correspondence run (harness | Lean driver), verdict, evidence; --replay re-runs the recorded cases on the current tree. See DESIGN.md (section 9 for the state as built).",
+    "notes": "Every check: regenerate constants and the translated definitions (tools/gen_*.py: about 280 functions of the BDD / SDD / decision-DNNF builders, tables, orders, vtrees, CNF utilities, propagator, optimisation queries, semirings, serialisers, C wrappers) from the source, lake build + axiom audit of every theorem of the property's modules, cargo build of the harness against /repo's working tree, correspondence run (harness | Lean driver), verdict, evidence; --replay re-runs the recorded cases on the current tree. See DESIGN.md (section 9 for the state as built).",
 }
 json.dump(manifest, open(os.path.join(ROOT, "MANIFEST.json"), "w"), indent=1)
 print("wrote MANIFEST.json with", len(checks), "checks;", len(na), "not claimed")
